@@ -24,17 +24,21 @@ def run(R, env):
     h = sites["ReceiveRewards"]
     hk = h.body.key
     # R1: every multiply_ratio in the handler is the fee formula
-    mrs = list(call_sites(h, lambda nm: nm == "cosmwasm_std::Uint128::multiply_ratio"))
+    # (in the handler or in the helpers it calls, with their parameters bound to the handler's values)
+    from engine.analysis import inline_walk as _iw11
+    mrs = [(c_, bi, t, args) for c_, p_ in _iw11(prog, h, 2) for bi, t, args in call_sites(c_, lambda nm: nm == "cosmwasm_std::Uint128::multiply_ratio")]
     R.floor("C11.R1", "multiply_ratio sites in ReceiveRewards", len(mrs), 1)
-    for bi, t, args in mrs:
-        term = h.T.call_term(t, bi)
-        R.ob("C11.R1", "ReceiveRewards:fee-formula", is_fee(prog, term), "fee computed as %s; expected protocol_fee_config.dao_treasury_fee.multiply_ratio(reward, 100000) with reward = the ibc-denom coin sent" % fmt(fold(term))[:240], loc=h.body.loc(bi), fn=hk)
+    for c_, bi, t, args in mrs:
+        term = c_.T.call_term(t, bi)
+        R.ob("C11.R1", "ReceiveRewards:fee-formula", is_fee(prog, term), "fee computed as %s; expected protocol_fee_config.dao_treasury_fee.multiply_ratio(reward, 100000) with reward = the ibc-denom coin sent" % fmt(fold(term))[:240], loc=c_.body.loc(bi), fn=hk)
 
-    def is_net(t):
+    def is_net0(t):
         if t[0] != "payload":
             return False
         c = shared.unwrap_payload(t)
         return c[0] == "call" and c[1] == "cosmwasm_std::Uint128::checked_sub" and is_reward(prog, c[2][0]) and is_fee(prog, c[2][1])
+
+    is_net = shared.via_forms(prog, is_net0)
 
     # R2
     for op, alts in shared.state_writes(prog, h, env):
